@@ -71,6 +71,20 @@ def field_mutants(rnd, z, limit=None):
             k = rnd.randrange(n)
             var('comp_len[%d]=%d' % (k, v), lambda y, v=v, k=k: y.chunks[k].__setitem__('comp_len_enc', Z.ci(v)))
             var('len[%d]=%d' % (k, v), lambda y, v=v, k=k: y.chunks[k].__setitem__('len_enc', Z.ci(v)))
+    # running sums of stored sizes at the representable limit (header length + data length must fit ssize_t)
+    if n >= 3:
+        try:
+            hl = len(z.header())
+        except Exception:
+            hl = 200
+        M = 2**63 - 1
+        for a, b2 in ((2**62, 2**62 - 1), (2**62, 2**62), (M - hl - 5, 5), (M - hl - 5, 6), (M - hl - 5, 4), (M - 300, 100),
+                      (M - 300, 250), (2**63 - 1, 1), (2**64 - 1, 2), (2**63, 2**63), (M // 2, M // 2 + 1 - hl - 40)):
+            for (i, j) in ((1, 2), (n - 2, n - 1), (0, n - 1)):
+                if i == j or i < 0: continue
+                def f(y, a=a, b2=b2, i=i, j=j):
+                    y.chunks[i]['comp_len_enc'] = Z.ci(a); y.chunks[j]['comp_len_enc'] = Z.ci(b2)
+                var('sum-boundary', f)
     for fl in (2, 3, 4, 5, 6, 8, 16, 64):
         var('flags=%d' % fl, lambda y, fl=fl: setattr(y, 'o_flags_enc', Z.ci(fl)))
     for ct in (1, 3):
@@ -134,7 +148,9 @@ def field_mutants(rnd, z, limit=None):
     for cut in sorted(set([0, 1, 4, 5, 6, 7, 24, 25, 26, hl - 1, hl, hl + 1, len(b) - 1]) ):
         if 0 <= cut < len(b): res.append(('truncate@%d' % cut, b[:cut]))
     if limit and len(res) > limit:
-        res = rnd.sample(res, limit)
+        keep = [r for r in res if r[0] in ('sum-boundary', 'opt-backward-loop')]
+        rest = [r for r in res if r[0] not in ('sum-boundary', 'opt-backward-loop')]
+        res = keep[:limit // 3] + rnd.sample(rest, min(len(rest), limit - len(keep[:limit // 3])))
     return res
 
 def raw_mutants(rnd, b, hl, count):
